@@ -70,6 +70,15 @@ def main():
         sh(f"git -C /repo worktree remove --force {wt}")
         sh("git -C /repo worktree prune")
         sh(f"rm -rf /tmp/evaltmp-{name}")
+    prev_path = os.path.join(d, "eval.json")
+    if skip_suite and os.path.exists(prev_path):
+        prev = json.load(open(prev_path))
+        for k in ("suite_summary", "suite_failed"):
+            if k in prev and k not in res:
+                res[k] = prev[k]
+        merged = dict(prev.get("checks", {}))
+        merged.update(res["checks"])
+        res["checks"] = merged
     with open(os.path.join(d, "eval.json"), "w") as f:
         json.dump(res, f, indent=1)
     return res
